@@ -74,7 +74,7 @@ pub fn gen_f64(rng: &mut Rng) -> u64 {
 /// non-NaN doubles (for coordinates): mostly finite, sometimes an infinity
 pub fn gen_coord(rng: &mut Rng) -> u64 {
     match rng.below(9) {
-        8 => if rng.chance(1, 2) { f64::INFINITY.to_bits() } else { f64::NEG_INFINITY.to_bits() },
+        8 => *rng.pick(&[f64::INFINITY.to_bits(), f64::NEG_INFINITY.to_bits(), f64::NAN.to_bits(), f64::NAN.to_bits()]),
         0 => 0f64.to_bits(),
         1 => (-0f64).to_bits(),
         2 => (rng.range(-1000000, 1000000) as f64 / 1000.0).to_bits(),
@@ -310,6 +310,33 @@ impl<'a> Gen<'a> {
             p.push(Rec { name, dt });
         }
         if !valid {
+            match rng.below(20) {
+                10 => p.push(std("isTimeStampInvalid", DT::I(0, 1))),                 // without timeStamp (unless present)
+                11 => p.push(std("isTimeStampInvalid", DT::I(0, 2))),
+                12 => p.push(std("sphericalInvalidState", DT::I(0, 2))),              // without spherical coordinates (unless present)
+                13 => p.push(std("sphericalInvalidState", DT::F32(None, None))),
+                14 => {
+                    // an integer angle
+                    match p.iter_mut().find(|r| r.name.is("sphericalAzimuth") || r.name.is("sphericalElevation")) {
+                        Some(r) => r.dt = DT::I(0, 360),
+                        None => p.push(std("sphericalAzimuth", DT::I(0, 360))),
+                    }
+                }
+                15 => {
+                    // two of the three colours
+                    if p.iter().any(|r| r.name.is("colorGreen")) {
+                        p.retain(|r| !r.name.is("colorGreen"));
+                    } else {
+                        p.push(std("colorRed", DT::I(0, 255)));
+                        p.push(std("colorBlue", DT::I(0, 255)));
+                    }
+                }
+                16 => p.push(std("isColorInvalid", DT::I(0, 2))),
+                17 => p.push(std("returnCount", DT::F32(None, None))),
+                18 => p.push(std("returnIndex", DT::I(0, 3))),                        // without returnCount (unless present)
+                19 => p.push(std("columnIndex", DT::S(0, 10, 1f64.to_bits(), 0f64.to_bits()))),
+                _ => {}
+            }
             match rng.below(10) {
                 9 => {
                     // a reversed integer range (the reader rejects such a prototype)
